@@ -132,6 +132,8 @@ pub enum RewritingError {
 pub struct HtmlRewriter<'h, O: OutputSink, H: HandlerTypes = LocalHandlerTypes> {
     stream: TransformStream<HtmlRewriteController<'h, H>, O>,
     poisoned: bool,
+    #[cfg(feature = "_verif_hooks")]
+    verif_limiter: SharedMemoryLimiter,
 }
 
 macro_rules! guarded {
@@ -176,6 +178,9 @@ impl<'h, O: OutputSink, H: HandlerTypes> HtmlRewriter<'h, O, H> {
         let memory_limiter =
             SharedMemoryLimiter::new(settings.memory_settings.max_allowed_memory_usage);
 
+        #[cfg(feature = "_verif_hooks")]
+        let verif_limiter = memory_limiter.clone();
+
         let stream = TransformStream::new(TransformStreamSettings {
             transform_controller: HtmlRewriteController::from_settings(
                 settings,
@@ -195,6 +200,8 @@ impl<'h, O: OutputSink, H: HandlerTypes> HtmlRewriter<'h, O, H> {
         HtmlRewriter {
             stream,
             poisoned: false,
+            #[cfg(feature = "_verif_hooks")]
+            verif_limiter,
         }
     }
 
@@ -224,6 +231,23 @@ impl<'h, O: OutputSink, H: HandlerTypes> HtmlRewriter<'h, O, H> {
     #[inline]
     pub fn end(mut self) -> Result<(), RewritingError> {
         guarded!(self, self.stream.end())
+    }
+
+    /// Verification hook: `(accounted usage, limit)` of this rewriter's memory limiter.
+    #[cfg(feature = "_verif_hooks")]
+    #[must_use]
+    pub fn verif_memory_usage(&self) -> (usize, usize) {
+        (self.verif_limiter.verif_usage(), self.verif_limiter.verif_max())
+    }
+
+    /// Verification hook: size in bytes of one open-element stack item and the minimum
+    /// capacity (in items) the stack grows by.
+    #[cfg(feature = "_verif_hooks")]
+    #[must_use]
+    pub fn verif_stack_item_layout() -> (usize, usize) {
+        crate::memory::LimitedVec::<
+            crate::selectors_vm::StackItem<'static, ElementDescriptor>,
+        >::verif_layout()
     }
 }
 
